@@ -23,13 +23,13 @@ import (
 // are blind.
 
 type mixOp struct {
-	Kind  int // 0 define, 1 data, 2 compressed data
+	Kind  int // 0 define, 1 data, 2 compressed data (position-dependent time offset), 3 compressed data whose time offset has the other local type in its low nibble
 	Local byte
 	Def   int
 }
 
 var mixDefNames = []string{"rec-le-ts-first", "rec-be-ts-mid", "rec-le-no-ts", "unknown-msg", "lap-zero-fields", "rec-le-dev",
-	"activity-localtime", "rec-be-signed-unknownfield", "hrv-array", "monitoring-unhosted", "file_id", "event-be"}
+	"activity-localtime", "rec-be-signed-unknownfield", "hrv-array", "monitoring-unhosted", "file_id", "event-be", "file_creator"}
 
 func (o mixOp) String() string {
 	switch o.Kind {
@@ -37,6 +37,8 @@ func (o mixOp) String() string {
 		return fmt.Sprintf("def(l%d,%s)", o.Local, mixDefNames[o.Def])
 	case 1:
 		return fmt.Sprintf("data(l%d)", o.Local)
+	case 3:
+		return fmt.Sprintf("xdata(l%d)", o.Local)
 	}
 	return fmt.Sprintf("cdata(l%d)", o.Local)
 }
@@ -68,6 +70,8 @@ func mixDef(k int, local byte) fitmodel.Def {
 		return fitmodel.Def{Local: local, Global: 0, Fields: []fitmodel.FieldDef{F(0, 1, fitmodel.Enum), F(1, 2, fitmodel.Uint16)}}
 	case 11:
 		return fitmodel.Def{Local: local, Big: true, Global: 21, Fields: []fitmodel.FieldDef{F(253, 4, fitmodel.Uint32), F(0, 1, fitmodel.Enum), F(1, 1, fitmodel.Enum)}}
+	case 12: // a message kept at File level, not in the container
+		return fitmodel.Def{Local: local, Global: 49, Fields: []fitmodel.FieldDef{F(0, 2, fitmodel.Uint16), F(1, 1, fitmodel.Uint8)}}
 	}
 	panic("mixDef")
 }
@@ -83,6 +87,8 @@ func mixPayload(d fitmodel.Def, pos int) []byte {
 		for e := 0; e < n; e++ {
 			var v uint64
 			switch {
+			case f.Num == 253 && pos%5 == 4:
+				v = uint64(0x0FFFFFF0 + pos) // a reference below the system-time marker
 			case f.Num == 253:
 				v = uint64(1000000000 + ((pos*37)%11)*50)
 			case d.Global == 0 && f.Num == 0:
@@ -106,6 +112,31 @@ func mixPayload(d fitmodel.Def, pos int) []byte {
 	return p
 }
 
+// mixOffset: the 5-bit time offset of a compressed-timestamp record at a position: values whose low nibble equals
+// one of the two local types in use (1, 2, 17, 18), rollover-prone ones and others.
+// Even positions always use offset 9, so that a word can hold two compressed records with the identical header byte
+// on either side of a redefinition.
+func mixOffset(pos int) byte {
+	if pos%2 == 0 {
+		return 9
+	}
+	return []byte{1, 18, 31, 2, 17, 0, 30, 16}[pos/2%8]
+}
+
+// mixRecord: one data record for op o at position i under definition d.
+func mixRecord(o mixOp, i int, d fitmodel.Def) []byte {
+	switch o.Kind {
+	case 1:
+		return fitmodel.Data(o.Local, mixPayload(d, i))
+	case 3:
+		// the low nibble of the offset is the *other* local type in use (a header decoded with the normal-header
+		// mask would point there); bit 4 alternates
+		other := byte(3 - o.Local)
+		return fitmodel.Compressed(o.Local, other|byte(i%2)<<4, mixPayload(d, i))
+	}
+	return fitmodel.Compressed(o.Local, mixOffset(i), mixPayload(d, i))
+}
+
 // mixStream builds the stream for a word; ok is false when the word uses a local type that is not defined (the
 // generator then has no layout for the record; those words are C13's and C16's subject).
 func mixStream(ops []mixOp, probe bool) (stream []byte, full []mixOp, ok bool) {
@@ -119,16 +150,12 @@ func mixStream(ops []mixOp, probe bool) (stream []byte, full []mixOp, ok bool) {
 			d := mixDef(o.Def, o.Local)
 			slots[o.Local] = &d
 			parts = append(parts, d.Bytes())
-		case 1, 2:
+		case 1, 2, 3:
 			d := slots[o.Local]
 			if d == nil {
 				return nil, nil, false
 			}
-			if o.Kind == 1 {
-				parts = append(parts, fitmodel.Data(o.Local, mixPayload(*d, i)))
-			} else {
-				parts = append(parts, fitmodel.Compressed(o.Local, byte((i*5+3)%32), mixPayload(*d, i)))
-			}
+			parts = append(parts, mixRecord(o, i, *d))
 		}
 	}
 	full = append(full, ops...)
@@ -139,12 +166,7 @@ func mixStream(ops []mixOp, probe bool) (stream []byte, full []mixOp, ok bool) {
 			if d == nil {
 				continue
 			}
-			i := len(ops) + k
-			if o.Kind == 1 {
-				parts = append(parts, fitmodel.Data(o.Local, mixPayload(*d, i)))
-			} else {
-				parts = append(parts, fitmodel.Compressed(o.Local, byte((i*5+3)%32), mixPayload(*d, i)))
-			}
+			parts = append(parts, mixRecord(o, len(ops)+k, *d))
 			full = append(full, o)
 		}
 	}
@@ -210,7 +232,7 @@ func mixReplay(raw json.RawMessage) (string, bool, error) {
 func mixAlphabet() []mixOp {
 	var a []mixOp
 	for _, l := range []byte{1, 2} {
-		a = append(a, mixOp{Kind: 1, Local: l}, mixOp{Kind: 2, Local: l})
+		a = append(a, mixOp{Kind: 1, Local: l}, mixOp{Kind: 2, Local: l}, mixOp{Kind: 3, Local: l})
 	}
 	for _, l := range []byte{1, 2} {
 		for k := range mixDefNames {
@@ -260,7 +282,7 @@ func mixFamily(w *vx.W, maxLen int) {
 }
 
 func init() {
-	const t = " Shared mix family: all words up to length 3 (quick) / 4 (thorough) over {define(l, one of 12 shapes), data(l), compressed data(l)} for two local types — both byte orders, timestamp first / in the middle / absent, zero-field and developer-field definitions, an unknown message, unknown fields in a known message, signed, array and local-time fields, a message the file type does not host, a second file_id — each word also followed by a probe of every defined local type; the decoded File is compared message by message and field by field with a complete reference decoder (independent parser + value model + timestamp machine + reflection-derived router)."
+	const t = " Shared mix family: all words up to length 3 (quick) / 4 (thorough) over {define(l, one of 13 shapes), data(l), compressed data(l) with a position-dependent time offset, compressed data(l) whose offset carries the other local type in its low nibble} for two local types — both byte orders, timestamp first / in the middle / absent, zero-field and developer-field definitions, an unknown message, unknown fields in a known message, signed, array and local-time fields, a message the file type does not host, a second file_id — each word also followed by a probe of every defined local type; the decoded File is compared message by message and field by field with a complete reference decoder (independent parser + value model + timestamp machine + reflection-derived router)."
 	for _, id := range []string{"C02", "C03", "C12", "C13"} {
 		vx.AppendRule(id, t)
 	}
